@@ -550,7 +550,7 @@ func c17CutInsideOffendingChar(rep *c17Report, whole []byte, p int) bool {
 	if got != line || p >= len(whole) || whole[p] < 0x80 || len(rep.Excerpt) > col {
 		return false
 	}
-	T := string(whole[start:end])
+	T := strings.ReplaceAll(string(whole[start:end]), "\t", " ") // the command shows a tab of the line as one space
 	w, ok := c17Width(rep.Excerpt)
 	return ok && T[col-len(rep.Excerpt):col] == rep.Excerpt && w == rep.Caret && (len(rep.Excerpt) == col || len(rep.Excerpt) >= 45)
 }
